@@ -137,7 +137,7 @@ Section Ctors.
   Variable fexp : pfloat -> pfloat.
   Variables (bits : N) (signed : bool) (r : rescale) (voi : wl_transform) (t : target) (l : lut).
   Hypothesis Hbits : (1 <= bits <= 16)%N.
-  Hypothesis OK : voi_okb voi = true.
+  Hypothesis OK : voi_ok voi.
 
   Let sv := stored_value bits signed.
 
@@ -146,7 +146,7 @@ Section Ctors.
   Proof.
     intros Hl Fv. destruct (y_max_exact bits Hbits) as (F & E & B).
     apply (window_entries_range_f fexp bits signed r voi t l Hbits (y_max_of_bits bits) (y_max_Z bits) F E (proj1 B)
-             (voi_okb_sound _ OK) s Hl Fv).
+             OK s Hl Fv).
   Qed.
 
   Lemma rw_mono s1 s2 : new_rescale_and_window fexp bits signed r voi t = Ok l ->
@@ -156,14 +156,14 @@ Section Ctors.
   Proof.
     intros Hl Hs F1 F2 Hle. destruct (y_max_exact bits Hbits) as (F & E & B).
     apply (window_entries_mono_f fexp bits signed r voi t l Hbits (y_max_of_bits bits) (y_max_Z bits) F E (proj1 B)
-             (voi_okb_sound _ OK) s1 s2 Hl Hs F1 F2 Hle).
+             OK s1 s2 Hl Hs F1 F2 Hle).
   Qed.
 
   Lemma w_range s : new_window fexp bits signed voi t = Ok l -> (0 <= lut_get l s <= y_max_Z bits)%Z.
   Proof.
     intros Hl. destruct (y_max_exact bits Hbits) as (F & E & B).
     apply (window_entries_range_g fexp bits signed voi t l Hbits (y_max_of_bits bits) (y_max_Z bits) F E (proj1 B)
-             (voi_okb_sound _ OK) s Hl).
+             OK s Hl).
   Qed.
 
   Lemma w_mono s1 s2 : new_window fexp bits signed voi t = Ok l ->
@@ -171,7 +171,7 @@ Section Ctors.
   Proof.
     intros Hl Hle. destruct (y_max_exact bits Hbits) as (F & E & B).
     apply (window_entries_mono_g fexp bits signed voi t l Hbits (y_max_of_bits bits) (y_max_Z bits) F E (proj1 B)
-             (voi_okb_sound _ OK) s1 s2 Hl Hle).
+             OK s1 s2 Hl Hle).
   Qed.
 End Ctors.
 
@@ -179,7 +179,7 @@ Section Ctors8.
   Variable fexp : pfloat -> pfloat.
   Variables (bits : N) (signed : bool) (r : rescale) (voi : wl_transform) (l : lut).
   Hypothesis Hbits : (1 <= bits <= 16)%N.
-  Hypothesis OK : voi_okb voi = true.
+  Hypothesis OK : voi_ok voi.
   Let sv := stored_value bits signed.
 
   Lemma rw8_range s : new_rescale_and_window_8bit fexp bits signed r voi = Ok l ->
@@ -187,7 +187,7 @@ Section Ctors8.
   Proof.
     intros Hl Fv. destruct fR_255 as [F E].
     apply (window_entries_range_f fexp bits signed r voi TU8 l Hbits 255%float 255%Z F E ltac:(lia)
-             (voi_okb_sound _ OK) s Hl Fv).
+             OK s Hl Fv).
   Qed.
 
   Lemma rw8_mono s1 s2 : new_rescale_and_window_8bit fexp bits signed r voi = Ok l ->
@@ -197,14 +197,14 @@ Section Ctors8.
   Proof.
     intros Hl Hs F1 F2 Hle. destruct fR_255 as [F E].
     apply (window_entries_mono_f fexp bits signed r voi TU8 l Hbits 255%float 255%Z F E ltac:(lia)
-             (voi_okb_sound _ OK) s1 s2 Hl Hs F1 F2 Hle).
+             OK s1 s2 Hl Hs F1 F2 Hle).
   Qed.
 
   Lemma w8_range s : new_window_8bit fexp bits signed voi = Ok l -> (0 <= lut_get l s <= 255)%Z.
   Proof.
     intros Hl. destruct fR_255 as [F E].
     apply (window_entries_range_g fexp bits signed voi TU8 l Hbits 255%float 255%Z F E ltac:(lia)
-             (voi_okb_sound _ OK) s Hl).
+             OK s Hl).
   Qed.
 
   Lemma w8_mono s1 s2 : new_window_8bit fexp bits signed voi = Ok l ->
@@ -212,7 +212,7 @@ Section Ctors8.
   Proof.
     intros Hl Hle. destruct fR_255 as [F E].
     apply (window_entries_mono_g fexp bits signed voi TU8 l Hbits 255%float 255%Z F E ltac:(lia)
-             (voi_okb_sound _ OK) s1 s2 Hl Hle).
+             OK s1 s2 Hl Hle).
   Qed.
 End Ctors8.
 
